@@ -215,10 +215,10 @@ def run(chk):
             probes = [["lock", "contend", "try", "unlock"], ["try", "contend", "lock", "unlock"]]
             contends = [8 if thorough else 2]
             rnd = [random_sequence(rng, chk, v, rng.choice([5, 20, 60]), contends) for _ in range(1500 if thorough else 200)]
-            mex = list(multi_exhaustive(5 if thorough else 4))
+            mex = list(multi_exhaustive(4 if thorough else 3))
             nseq += len(mex)
             budget = [6 if thorough else 2]
-            mrnd = [multi_random(rng, chk, rng.choice([8, 25, 60]), budget) for _ in range(600 if thorough else 120)]
+            mrnd = [multi_random(rng, chk, rng.choice([8, 25, 60]), budget) for _ in range(600 if thorough else 150)]
             cases = ac.corpus_for("C01", v)
             f, c, t = diffrun.campaign(chk, fams[v], cases + probes + MULTI_PROBES + ex + mex + rnd + mrnd, proof_ok, detail, None, "C01 variant=" + v, batch=400)
             found, corr, thm = found or f, corr or c, thm or t
@@ -259,7 +259,7 @@ def run(chk):
                        "(op, code) pairs of length 2 after every init code, plus random scripts; wrapper result and the native function called are compared. "
                        "(iii) real threads in every run: counter / shadow-holder-count / two-lock programs on every back-end (ThreadSanitizer for c11 and sim, "
                        "gcc -O2 value oracles for sync and once more for c11), larger in the thorough tier. "
-                       "distinct by op-file hash, non-trivial = more than one op") % (depth, 5 if thorough else 4, CODES)
+                       "distinct by op-file hash, non-trivial = more than one op") % (depth, 4 if thorough else 3, CODES)
     chk.cov["exhaustive"] = False
     chk.assumptions += [
         "hardware and compiler implement __atomic_compare_exchange_n / __atomic_store / __sync_bool_compare_and_swap as indivisible operations with the stated "
